@@ -8,7 +8,7 @@ RULE = ("cases = same layout and stimulus space as C04 (all shadow_overlaps limi
         "trace; distinct = distinct layout+stimulus; non-trivial = run with >= 1 write-strobe evaluation whose "
         "transaction wrote more than one chunk")
 ASSUMPTIONS = ["Amaranth simulator is faithful", "timing model S2/A2 of DESIGN.md C05 (models/csrmux.py)",
-               "layouts on which elaboration diverges (known finding F3, decided by C19) are skipped and counted"]
+               "layouts whose shadow_overlaps limit no shadow size can satisfy are refused at elaboration (finding F3, fixed; checked by C19): skipped and counted"]
 REQUIRED = ["S2_w_stb", "A2_w_data", "S2_readonly_or_unmapped", "A2_multi_chunk"]
 
 
@@ -30,6 +30,6 @@ def run_case(case):
 LEVEL_TEXT = ("Online trace monitor over simulations of the real csr.Multiplexer on generated layouts: every register's "
               "write strobe is compared on every cycle with 'one cycle after a write to its last address and never "
               "otherwise', and write data with the chunks written in the recognised transaction.")
-LEVEL_NOTE = "Trusted: Amaranth simulator, CPython, models/csrmux.py. F3 layouts are skipped here and reported by C19."
+LEVEL_NOTE = "Trusted: Amaranth simulator, CPython, models/csrmux.py. Layouts with an unsatisfiable sharing limit are refused at elaboration and skipped here (C19 checks the refusal)."
 TECHNIQUE = "runtime monitoring: per-cycle trace checker with a layout-only reference model over randomized simulation"
 DESIGN_REF = "DESIGN.md section 4, C04/C05"
